@@ -74,12 +74,20 @@ def exc_class(e):
     if isinstance(e, (NotImplementedError, UndefinedSamplingException)):
         return "refused"
     if type(e) in (TypeError, RuntimeError, ValueError):
-        tb = traceback.extract_tb(e.__traceback__)
-        if tb:
-            last = tb[-1]
-            if last.filename.endswith("scenic/core/regions.py") and (last.line or "").lstrip().startswith("raise"):
-                return "refused"
-            # multi-line raise statements: the reported line is the first line of the statement in 3.12
+        # explicit `raise` statement in scenic.core.regions: decided on the byte code of the frame
+        # that raised (RAISE_VARARGS at tb_lasti), not on the source text, so that an edit of the
+        # file on disk during the run cannot change the classification
+        tb = e.__traceback__
+        while tb is not None and tb.tb_next is not None:
+            tb = tb.tb_next
+        if tb is not None and tb.tb_frame.f_code.co_filename.endswith("scenic/core/regions.py"):
+            import dis
+
+            for ins in dis.get_instructions(tb.tb_frame.f_code):
+                if ins.offset == tb.tb_lasti:
+                    if ins.opname == "RAISE_VARARGS":
+                        return "refused"
+                    break
     return "crash"
 
 
@@ -471,7 +479,7 @@ def choose_pairs(tier, ncat):
     rng = random.Random(seed() * 7919 + 16)
     rest = [p for p in allp if not (p[0] in cs and p[1] in cs)]
     rng.shuffle(rest)
-    return [p for p in allp if p[0] in cs and p[1] in cs] + sorted(rest[:44])
+    return [p for p in allp if p[0] in cs and p[1] in cs] + sorted(rest[:300])
 
 
 _DUMP = []
@@ -658,7 +666,7 @@ def main(tier):
     ck.cov["exhaustive"] = tier != "quick"
     ck.cov["explanation"] = (
         "TLC checks the laws on every probe for every selected ordered pair and operation; thorough = all ordered pairs of the "
-        "catalogue, quick = all pairs of a core (one or two instances per kind) plus 44 seeded other pairs"
+        "catalogue, quick = all pairs of a core (one or two instances per kind) plus 300 seeded other pairs"
     )
     return ck.finish()
 
